@@ -31,7 +31,7 @@ ASSUMPTIONS = ["backwards clock jumps are not injected (the property speaks of e
                "with a ticking clock the +-1us boundary classes are widened to +-16us and verdicts inside the band are withheld",
                "real-time cross-check is left to the repository's own three sleep-based tests"]
 FAULT_KINDS = ["preemption", "clock_gap_at_boundary", "clock_tick_between_reads", "expiry"]
-PROBES = ["batch_of_instances", "two_sweeping_requests_together", "access_concurrent_with_sweep", "due_instance_accessed_during_a_sweep", "slow_release_of_expired_instances", "save_state_between_accesses", "created_via_start_instances", "expired_exactly_at_boundary", "alive_one_us_before_boundary", "restored_from_adapter",
+PROBES = ["two_creations_together", "batch_of_instances", "two_sweeping_requests_together", "access_concurrent_with_sweep", "due_instance_accessed_during_a_sweep", "slow_release_of_expired_instances", "save_state_between_accesses", "created_via_start_instances", "expired_exactly_at_boundary", "alive_one_us_before_boundary", "restored_from_adapter",
           "refused_after_expiry", "self_access_after_expiry_before_sweep", "swept_by_other_access",
           "swept_by_create", "swept_by_metrics", "keepalive_restore"]
 EXHAUSTIVE = {"quick": False, "thorough": False}
@@ -138,6 +138,11 @@ def generate(spec):
             last.append(now)
             events.append({"gap_us": gap, "op": "create", "timeout": to, "session": rng.random() < 0.85,
                            "via": rng.choice(["single", "single", "plural"])})
+            if events[-1]["via"] == "single" and rng.random() < 0.15:
+                events[-1]["with_creation"] = {"sched": {"kind": "random", "seed": rng.randrange(2**32), "p": rng.choice([0.05, 0.2, 0.5])}}
+                events[-1]["session"] = False
+                insts.append(timeout_us(to))
+                last.append(now)
             if events[-1]["via"] == "plural" and rng.random() < 0.3 and not cost:      # (a slow release of a whole batch would outlast the time-outs)
                 # a batch of instances from one request (a pool warmed up in advance): they all come due together
                 events[-1]["count"] = rng.choice([9, 12])
@@ -186,7 +191,7 @@ def execute(case):
     expect_destroyed = {}   # serial -> 1 for every bptk whose instance was timed out
     expired_any = [False]
 
-    conc = any(e.get("with_trigger") or e.get("with_second") for e in case["events"])
+    conc = any(e.get("with_trigger") or e.get("with_second") or e.get("with_creation") for e in case["events"])
     if cfg.get("destroy_cost_us"):
         res.probe("slow_release_of_expired_instances")
     with ServerWorld({"model": cfg["model"], "adapter": adapter, "clock_ticks": ticks, "threads": "auto" if conc else "serial",
@@ -241,6 +246,31 @@ def execute(case):
                         if ev.get("count", 1) > 1 and len(r.body["instance_uuids"]) != ev["count"]:
                             res.violate("C17.A-create-refused", {"status": r.status, "asked": ev["count"], "got": len(r.body["instance_uuids"])})
                             break
+                elif ev.get("with_creation"):
+                    # two creations in flight together (line-level interleaving inside the server): both instances exist afterwards
+                    from sim.threads import Scheduler, make_policy, run_tasks
+                    box = {}
+
+                    def mkc(name):
+                        def f():
+                            box[name] = w.post("/start-instance", {"timeout": ev["timeout"]})
+                        return f
+                    sched = Scheduler(make_policy(ev["with_creation"]["sched"]), ("server/bptkServer.py",), log=None)
+                    with sched:
+                        rr_ = run_tasks(sched, [mkc("a"), mkc("b")])
+                    for x_ in rr_:
+                        if x_ and x_[0] == "exc":
+                            raise x_[1]
+                    res.probe("two_creations_together")
+                    if sched.switches > 2:
+                        res.fault("preemption", sched.switches)
+                    r = box["a"]
+                    rb_ = box["b"]
+                    if rb_.status != 200 or not isinstance(rb_.body, dict) or "instance_uuid" not in rb_.body:
+                        res.violate("C17.A-create-refused", {"status": rb_.status, "concurrent": True})
+                        break
+                    if r.status == 200 and isinstance(r.body, dict) and "instance_uuid" in r.body:
+                        r.body["instance_uuids"] = [r.body["instance_uuid"], rb_.body["instance_uuid"]]     # the second one is tracked like a batch member
                 else:
                     r = w.post("/start-instance", {"timeout": ev["timeout"]})
                 t1 = clk.now_us
@@ -544,7 +574,7 @@ def shrink(case):
         c["config"]["destroy_cost_us"] = 0
         yield c
     for n, ev in enumerate(case["events"]):
-        for key in ("with_trigger", "with_second"):
+        for key in ("with_trigger", "with_second", "with_creation"):
             if ev.get(key):
                 c = copy.deepcopy(case)
                 c["events"][n].pop(key)
